@@ -400,7 +400,8 @@ class Sym:
     def rvalue(self, path, s, dest_ty):
         s = s.strip()
         s = re.sub(r"^no_retag ", "", s)
-        if re.match(r"(copy|move) ", s) and " as " not in s:
+        is_cast = re.search(r" as [^()]*(\(.*\))?[^()]* \((IntToInt|IntToFloat|FloatToInt|FloatToFloat|PtrToPtr|FnPtrToPtr|Transmute|PointerCoercion.*|PointerExposeProvenance|PointerWithExposedProvenance|Subtype)\)$", s)
+        if re.match(r"(copy|move) ", s) and not is_cast:
             v, rp = self.operand(path, s)
             return v, rp
         if s.startswith("const "):
